@@ -333,11 +333,36 @@ func perIteration(c *report.Ctx, f *ssa.Function, paramIdx int, set map[*ssa.Fun
 	par := f.Params[paramIdx]
 	construct := sk(f) + "=>each:" + what
 	var start ssa.Instruction
+	cutOf := cutCalls(p, set)
+	inLoopOf := func(hdr *ssa.BasicBlock) bool { // does the loop headed by hdr contain a call to set?
+		found := false
+		an.Instrs(f, func(in ssa.Instruction) {
+			if found || !cutOf(in) {
+				return
+			}
+			for h := loopHeaderOf(in.Block()); h != nil; h = outerLoopHeader(h) {
+				if h == hdr {
+					found = true
+				}
+			}
+		})
+		return found
+	}
+	var first ssa.Instruction
 	an.Instrs(f, func(in ssa.Instruction) {
-		if ia, ok := in.(*ssa.IndexAddr); ok && ia.X == ssa.Value(par) && start == nil {
-			start = in
+		if ia, ok := in.(*ssa.IndexAddr); ok && ia.X == ssa.Value(par) {
+			if first == nil {
+				first = in
+			}
+			// the loop that is meant is the one that makes the call (another loop over the same slice may precede it)
+			if h := loopHeaderOf(in.Block()); start == nil && h != nil && inLoopOf(h) {
+				start = in
+			}
 		}
 	})
+	if start == nil {
+		start = first
+	}
 	if start == nil {
 		c.Fail(construct, "no loop over parameter "+par.Name()+" found", p.Pos(f.Pos()))
 		return
